@@ -175,7 +175,20 @@ func (e *Env) ExecBulk(ctx context.Context, worker string, rq Req) ReqRes {
 	if len(q) > 0 {
 		path += "?" + q.Encode()
 	}
-	r := e.APIDo(ctx, worker, "POST", path, els, nil)
+	var body any = els
+	var hdr map[string]string
+	if rq.CT == "json-stream" {
+		// one JSON object per line, read element by element by the streaming handler
+		var sb strings.Builder
+		for _, el := range els {
+			b, _ := json.Marshal(el)
+			sb.Write(b)
+			sb.WriteByte('\n')
+		}
+		body = sb.String()
+		hdr = map[string]string{"Content-Type": "application/vnd.formance.ledger.api.v2.bulk+json-stream"}
+	}
+	r := e.APIDo(ctx, worker, "POST", path, body, hdr)
 	out := ReqRes{Status: r.Status, OK: r.Status >= 200 && r.Status < 300, Els: []ElemRes{}, Empty: len(r.Body) == 0}
 	v, err := r.JSON()
 	if err != nil || v == nil {
@@ -378,6 +391,9 @@ func GenBulkHistory(seed int64, n int) []Req {
 	step := 0
 	for i := 0; i < n; i++ {
 		rq := Req{K: "bulk", L: "l1"}
+		if (int64(i)+seed)%2 == 0 {
+			rq.CT = "json-stream" // every other bulk goes through the streaming handler
+		}
 		switch r.Intn(6) {
 		case 0:
 			rq.Atomic = true
